@@ -40,7 +40,7 @@ PROPS = {
                      'particles within 1e-9 of the code\'s own 1e-6 interface threshold may go either way',
                      'an outlet particle beyond the far end is deleted by the end of the NEXT active update (it carries the fluid\'s zone id '
                      'for one update when it enters already beyond the end)'],
-        quick=dict(runs=700, budget_s=75),
+        quick=dict(runs=3000, budget_s=80),
         thorough=dict(runs=200000, budget_s=1800),
     ),
 }
